@@ -40,7 +40,7 @@ PROPS = {
         'level': 'other',
         'technique': TECH + '; inductive lemmas (closed form == pair sum) by z3; floating-point behaviour, quadrature and Koyama moments only by a bounded stand-in',
         'explanation': 'Gaussian/FJC calculate() refined against closed(E,N) for symbolic integer N; GaussianRing against the sum over the N separations and DiscreteKoyama.calculate against the defining double sum over site pairs i<j, both for SYMBOLIC N: the accumulation loops of the code are summarised as uninterpreted finite sums and matched with the sums of the contract (bounds equal, summands equal at a generic index; unrolled N<=8 kept as extra cases); Koyama kernel: koyama_kernel_fourier against the documented sin(Bk)/(Bk) exp(-A^2 k^2), kernel_base against the shipped transcription of the paper (trusted formula), constructor rejections, linearised branch and root-solve branch (epsilon = the point that scipy.optimize.root reports, cos2 = second moment there, failure -> ValueError), cos_avg/cos_sq_avg against the bond-angle moments; SingleSite/NoIntra constant in fresh storage whatever was evaluated or edited before; all constructors. Lemmas: closed form == (1/N) sum_ij E^|i-j| (induction step as rational identity), limits k->0 (N), k->inf (1), bound <= N for |E|<=1, ring symmetry w_t = w_(N-t). Out of reach and bounded only: NFJC quadrature, that the reported point IS a root of the bending-energy equation, IEEE cancellation at small k.',
-        'assumptions': [A_FP, A_INT, A_NUMPY, A_TRANS, 'DiscreteKoyama.kernel_base is verified only against the shipped transcription of the moment formulas of Honnell et al. (no independent statement available: TRUSTED FORMULA)', 'scipy.optimize.root in DiscreteKoyama.__init__: assumed contract R1/R2 (last evaluation at the reported point, success flag arbitrary); convergence to a root only by the bounded stand-in', 'finite sums over a symbolic range are uninterpreted: two sums are equal when their bounds are equal and their summands are equal at every index (extensionality); code and contract must nest them in the same order', 'NonOverlappingFreelyJointedChain.calculate (fixed-grid quadrature) is outside the verified subset: bounded stand-in only'],
+        'assumptions': [A_FP, A_INT, A_NUMPY, A_TRANS, 'DiscreteKoyama.kernel_base is verified only against the shipped transcription of the moment formulas of Honnell et al. (no independent statement available: TRUSTED FORMULA)', 'scipy.optimize.root in DiscreteKoyama.__init__: assumed contract R1/R2 (last evaluation at the reported point, success flag arbitrary); convergence to a root only by the bounded stand-in', 'finite sums over a symbolic range are uninterpreted: two sums are equal when their bounds are equal and their summands are equal at every index (extensionality); code and contract must nest them in the same order', 'NonOverlappingFreelyJointedChain.calculate (fixed-grid quadrature) is outside the verified subset: bounded stand-in only', 'the native cross-check of Gaussian/FreelyJointedChain.calculate draws its concrete samples with k*sigma (k*l) > 0.05: below that the double-precision closed form has lost its digits (the recorded known finding, decided by the bounded floating-point stand-in); the symbolic obligations cover every real k'],
     },
     'C12': {
         'level': 'proof',
